@@ -25,6 +25,14 @@ CHECKS = {
               "tuples for all ten element types check count, bound and 5-D refusal."),
         note=TB_COMMON + "c2gallina (clang JSON AST -> Gallina, unsigned wrap mod 2^64); tuple sizes < 2^12 in the theorems; kernel correctness itself is C01-C03 (their listed finding classes are subtracted by exact class predicate).",
         technique="Coq proof over code translated from the C source on every run + differential check + end-to-end oracle"),
+    "C11": dict(
+        category="proof", design_ref="DESIGN.md §4 C11",
+        text=("Prefix-code round trip for every tree and sequence (bit-serial and table-driven decoders, payload followed by arbitrary "
+              "bytes), single-symbol case, tree table round trip in the three byte layouts with the width thresholds shown sufficient, all "
+              "proved in Coq without axioms; on every run the model parses the tree the implementation serialised and compares payload "
+              "bytes, sizes, maxBits and both decoders (ASan build) on exhaustive small alphabets, threshold node counts and skewed profiles."),
+        note=TB_COMMON + "Tree shape is a universally quantified input (optimality of the heap-built tree not modelled); code words <= 64 bits; 'stays within its buffer' is observed by ASan, not proved.",
+        technique="Coq proof (induction over trees/sequences) + model/implementation differential check with the implementation's tree as oracle input"),
 }
 
 NOT_YET = {}
